@@ -1,5 +1,6 @@
 import CallbagModel.Inv.XViols
 import CallbagModel.Inv.Combine
+import CallbagModel.Inv.ComposeInst
 import CallbagModel.Inv.ComposeSafe
 import CallbagModel.Inv.Concat
 import CallbagModel.Inv.Flatten
@@ -72,6 +73,10 @@ theorem C01_pipe_of_two_relays {σ₁ σ₂ α β γ : Type} (k₁ : Relay.Kind 
 theorem C01_pipeline {S1 L1 S2 L2 α β γ : Type} {M1 : Machine S1 L1 α β} {M2 : Machine S2 L2 β γ} (P1 : Pipeable M1) (P2 : Pipeable M2) :
     ∀ s, SReach (compose M1 M2) s → SafeFor 1 s :=
   fun s hs => safeFor_of_basicSafe _ s hs ((P1.compose P2).safe s hs) 1 (by decide)
+
+theorem C01_closed_pipeline {S1 L1 S2 L2 α β γ : Type} {Msrc : Machine S1 L1 α β} {Mmid : Machine S2 L2 β γ} (hsrc : UpSide Msrc) (hmid : Pipeable Mmid) :
+    ∀ s, SReach (compose (compose Msrc Mmid) (ForEach.machine γ)) s → SafeFor 1 s :=
+  fun s hs => safeFor_of_basicSafe _ s hs (closed_pipeline_safe hsrc hmid s hs) 1 (by decide)
 
 
 /-- `share`, EVERY conformant environment (nested fan-out included): the only phase-level violations share can commit are deliveries
